@@ -22,6 +22,8 @@ for sid in args:
         r = subprocess.run(["./check", prop], cwd="/verif", env=dict(os.environ, VERIF_TIER=tier), capture_output=True, text=True)
     finally:
         subprocess.run(["git", "-C", "/repo", "checkout", "--", "."]); subprocess.run(["git", "-C", "/repo", "clean", "-fdq"])
+        # the evidence file written by this run describes a CHANGED tree: put the committed one (unchanged tree) back
+        subprocess.run(["git", "-C", "/verif", "checkout", "--", f"evidence/{prop}.json"])
     o = r.stdout + r.stderr
     lines = [l for l in o.splitlines() if l.startswith(("VIOLATION", "KNOWN", "ERROR", prop + ":"))][:6]
     det = r.returncode == 1 and any(l.startswith("VIOLATION property=" + prop) for l in lines)
